@@ -99,8 +99,26 @@ func (tcScenario) Build(cfg string) ([]func(), func(*vsched.Sched) []string) {
 			callbacks[fired]()
 			fired++
 		}
-		if !tc.Check(at(10_000_000)) {
+		// ... and EXACTLY as many as the current arming still owes: max(1,budget), minus what it already let through when
+		// the race ended before the budget was used up (period mode with too few callers); then the gate re-arms
+		want := limit
+		if mode == "period" && succ < limit {
+			want = limit - succ
+		}
+		late := 0
+		for i := 0; i < want+1; i++ {
+			if tc.Check(at(10_000_000)) {
+				late++
+			}
+			for fired < len(callbacks) { // the re-arming check arms a new callback: it plays no role at this timestamp
+				fired++
+			}
+		}
+		switch {
+		case late == 0:
 			problems = append(problems, "after all callbacks fired, a check long after the sleep period is still refused (the gate is stuck)")
+		case late != want:
+			problems = append(problems, fmt.Sprintf("after the race and all callbacks, %d eligible checks succeeded in the current arming; exactly %d are owed (max(1,budget)=%d, %d already let through)", late, want, limit, map[bool]int{true: succ, false: 0}[mode == "period" && succ < limit]))
 		}
 		return problems
 	}
